@@ -55,8 +55,8 @@ CHECKS['C12'] = dict(
    note='Coq kernel, no axioms; extraction + OCaml driver; Rust harness; independent Python grid oracle; not covered: ConversionFailed in TryFrom, f64 histories, usize overflow of height*width', ref='DESIGN.md §5 C12')
 CHECKS['C13'] = dict(
    technique='Coq proof (panic-aware model never panics and terminates within MAX_ITERATIONS for every matrix and arithmetic; shape/normalisation/Rayleigh-quotient facts on Ok; exit means small relative change) + bit-for-bit correspondence incl. runs to the iteration cap + exact residual/eigenvalue oracle',
-   text='11 theorems: c13_stop_rule_accuracy / _after / _pm / _start (the STOPPING RULE implies the eigenvalue accuracy |lambda - lam_0| < tol |lam_0| with C = 1, under the explicit eigen-decomposition with gap g <= 1/2, once the previous estimate is within (1-g)|lam_0|/2 of lam_0; in particular for EVERY Ok answer of power_method when 4 g^2 sum_{i>=1} c_i^2 <= (1-g) c_0^2), c13_rayleigh_error_contracts (inside that basin the error contracts by 2 g^2 per iteration, the basin is invariant), c13_rayleigh_error_bound (under an explicit orthonormal eigen-decomposition with |lam_i| <= g |lam_0|: the k-th Rayleigh quotient of the model\'s own normalised iteration satisfies |rho_k - lam_0| c_0^2 <= 2 |lam_0| g^(2k+2) sum c_i^2), c13_rayleigh_residual (the returned eigenvalue minimises the residual of the returned vector), c13_total (all instances: no panic, at most MAX_ITERATIONS iterations, n x 1 vector or NoConvergence, non-square/empty rejected), c13_shape_norm (R: largest component 1, lambda = Rayleigh quotient), c13_exit_means_small_change, c13_accuracy_partial (n = 1 only; the spectral accuracy bounds are decided by the oracle on symmetric Q D Q^T with gap <= 1/2)',
-   note=COMMON_NOTE + '; an exit before the basin is entered (start vector almost orthogonal to the dominant eigenvector), the eigenvector residual bound, the spectral theorem and rounding are measured by the oracle, not proved', ref='DESIGN.md §5 C13')
+   text='15 theorems: c13_residual_bound / c13_residual_accuracy_pm / _start / _start_ev (EIGENVECTOR RESIDUAL: ||A v - lambda v||^2 < (1+g) tol lam_0^2 ||v||^2, i.e. C sqrt(tol) with C <= sqrt(6), for the returned pair under the same hypotheses), c13_stop_rule_accuracy / _after / _pm / _start (the STOPPING RULE implies the eigenvalue accuracy |lambda - lam_0| < tol |lam_0| with C = 1, under the explicit eigen-decomposition with gap g <= 1/2, once the previous estimate is within (1-g)|lam_0|/2 of lam_0; in particular for EVERY Ok answer of power_method when 4 g^2 sum_{i>=1} c_i^2 <= (1-g) c_0^2), c13_rayleigh_error_contracts (inside that basin the error contracts by 2 g^2 per iteration, the basin is invariant), c13_rayleigh_error_bound (under an explicit orthonormal eigen-decomposition with |lam_i| <= g |lam_0|: the k-th Rayleigh quotient of the model\'s own normalised iteration satisfies |rho_k - lam_0| c_0^2 <= 2 |lam_0| g^(2k+2) sum c_i^2), c13_rayleigh_residual (the returned eigenvalue minimises the residual of the returned vector), c13_total (all instances: no panic, at most MAX_ITERATIONS iterations, n x 1 vector or NoConvergence, non-square/empty rejected), c13_shape_norm (R: largest component 1, lambda = Rayleigh quotient), c13_exit_means_small_change, c13_accuracy_partial (n = 1 only; the spectral accuracy bounds are decided by the oracle on symmetric Q D Q^T with gap <= 1/2)',
+   note=COMMON_NOTE + '; an exit before the basin is entered (start vector almost orthogonal to the dominant eigenvector), the spectral theorem and rounding are measured by the oracle, not proved', ref='DESIGN.md §5 C13')
 
 CHECKS['C08'] = dict(
    technique='Coq proof (Gaussian elimination with scaled partial pivoting on functional matrices: any returned vector solves A x = b; every matrix with a non-trivial left null vector is refused for every right-hand side; shape errors, no panic; triangular substitutions) + bit-for-bit correspondence on all container types + exact-rational oracle',
@@ -82,8 +82,8 @@ CHECKS['C17'] = dict(
 
 CHECKS['C09'] = dict(
    technique='Coq proof (right-looking invariant with the stored Schur complement: L U = P A, shapes, |l_ij| <= 1, pivots above the relative threshold; left/right null vectors are refused; Doolittle LU reconstructs A and errs exactly on a singular leading block) + bit-for-bit correspondence on all container types + exact determinant/minor oracle',
-   text='13 theorems: the binary64 backward-error theorem c09_lu_float_backward_error (Flocq: |L U - A| <= ((1+eps)^n - 1)|L||U| componentwise and all entries finite, for the executed float instance of lu when no step overflows or underflows, via c09_lu_recurrences which holds for every number type) and 11 in exact arithmetic for every n: c09_plu_shape, c09_plu_reconstruct, c09_plu_pivots (threshold n*eps*max|a| re-derived from the code), c09_plu_singular(_right), c09_lu_reconstruct, c09_lu_pivots, c09_lu_zero_minor(_right), c09_lu_err_iff_minor (full characterisation), c09_nonsquare; exhaustive 2x2/3x3 small-integer matrices (thorough: all 1.95M 3x3 with entries -2..2), random/permutation-heavy/scaled/rank-deficient up to 10x10',
-   note=COMMON_NOTE + '; the rounding envelope of PLU (LU: proved), and must-factor, are measured by the oracle; one known finding (F21: rounding residue lets some exactly singular -2..2 matrices of order >= 4 through)', ref='DESIGN.md §5 C09')
+   text='15 theorems: the binary64 backward-error theorems c09_lu_float_backward_error and c09_plu_float_backward_error (Flocq: |L U - A| resp. |L U - P A| <= ((1+eps)^n - 1)|L||U| componentwise and all entries finite, for the executed float instances of lu and of the pivoted plu, row interchanges included, when no step overflows or underflows; via c09_lu_recurrences / c09_plu_recurrences which hold for every number type) and 11 in exact arithmetic for every n: c09_plu_shape, c09_plu_reconstruct, c09_plu_pivots (threshold n*eps*max|a| re-derived from the code), c09_plu_singular(_right), c09_lu_reconstruct, c09_lu_pivots, c09_lu_zero_minor(_right), c09_lu_err_iff_minor (full characterisation), c09_nonsquare; exhaustive 2x2/3x3 small-integer matrices (thorough: all 1.95M 3x3 with entries -2..2), random/permutation-heavy/scaled/rank-deficient up to 10x10',
+   note=COMMON_NOTE + '; must-factor and the derivation of the no-overflow hypotheses from A alone are measured by the oracle; one known finding (F21: rounding residue lets some exactly singular -2..2 matrices of order >= 4 through)', ref='DESIGN.md §5 C09')
 CHECKS['C10'] = dict(
    technique='Coq proof (inverse on top of the PLU and substitution models: A B = I and B A = I whenever a value is returned; error cases; uniqueness form of the involution) + bit-for-bit correspondence + exact rational inverse oracle',
    text='7 theorems: c10_right_left (both products are the identity, for every pivoting pattern incl. non-symmetric permutations), c10_errors (non-square, singular via null vectors, 0x0 is Ok, never a panic), c10_involutive_partial (if both inversions succeed the second returns A entrywise) with a proved counterexample showing the relative pivot threshold can refuse the second inversion, c10_unique (any left or right inverse equals the returned matrix), c10_solves (B b is the one solution of A x = b; trivial kernel), c10_product (inverse of a product = reversed product of inverses); exhaustive small-integer 2x2/3x3, cyclic permutations, i32 and f64 elements, matrices scaled by 2^+-60',
